@@ -288,7 +288,7 @@ class Dem:
     ORACLES = {}
 
 
-Dem.ORACLES = {"C01": Dem.oracle_C01, "C10": Dem.oracle_C10, "C11": Dem.oracle_C11}
+Dem.ORACLES = {"C01": Dem.oracle_C01, "C10": Dem.oracle_C10, "C11": Dem.oracle_C11, "C19": Dem.oracle_C10}
 
 
 # =============================================================================================
